@@ -24,8 +24,8 @@ LOCAL_AS = 65000
 PEER_AS_EBGP = 65001
 NH4 = ['10.0.0.1', '10.0.0.2', '192.168.255.254']
 NH6 = ['2001:db8::1', '2001:db8::2', '2001:db8:ffff::fffe']
-MIX4 = [[24], [32], [8, 16, 24, 32], [0, 1, 7, 9, 15, 17, 23, 25, 31, 32], [24, 24, 24, 32, 16], [8]]
-MIX6 = [[64], [128], [32, 48, 64, 128], [0, 1, 33, 63, 65, 127, 128], [48, 64, 64, 56], [16]]
+MIX4 = [[24], [32], [8, 16, 24, 32], [0, 1, 7, 9, 15, 17, 23, 25, 31, 32], [24, 24, 24, 32, 16], [8], [16], [9]]
+MIX6 = [[64], [128], [32, 48, 64, 128], [0, 1, 33, 63, 65, 127, 128], [48, 64, 64, 56], [16], [32], [80]]  # 6 and 7: 5 and 11 octets per NLRI (the enumerated sweeps only)
 MAX_ROUTES = 1500
 # Communities.add / LargeCommunities.add are quadratic in the text parser: keep the counts where parsing stays cheap
 CAP_COMM = 300
@@ -144,7 +144,10 @@ def _net4(group: int, j: int, m: int) -> str:
 def _net6(group: int, j: int, m: int) -> str:
     block = (0x20010DB8 << 96) | ((group & 0xFFFF) << 80)
     avail = m - 48
-    if avail <= 0:
+    if 24 <= m <= 48 and j:
+        # short prefixes: the route number goes into the bits below 2001::/16 (only the enumerated sweeps ask for many of them)
+        n = ((0x2001 << (m - 16)) + (j % (1 << (m - 16)))) << (128 - m)
+    elif avail <= 0:
         n = block
     else:
         jj = j if avail >= 11 else j % (1 << avail)
@@ -160,7 +163,7 @@ def rd_hex(n: int) -> str:
 def _expand_group(group_no: int, spec: list, addpath: bool, used: set, announce: bool, nh4_fixed: int, extnh: bool = False) -> list[dict]:
     afi, safi, count, mix = spec[0], spec[1], spec[2], spec[3]
     nh, nhmod = (spec[4], spec[5]) if announce else (0, 1)
-    masks = (MIX4 if afi == 1 else MIX6)[mix % 6]
+    masks = (MIX4 if afi == 1 else MIX6)[mix % 8 if mix >= 6 else mix % 6]
     out = []
     for i in range(count):
         m = masks[i % len(masks)]
@@ -477,5 +480,19 @@ def alignment_sweep() -> list[dict]:
     return out
 
 
+def extended_length_sweep() -> list[dict]:
+    """enumerated: the MP attribute's own header grows from 3 to 4 octets when its value passes 255 octets. The room left for it
+    by the other attributes goes through 250..270 octets while same-sized IPv6 routes (5 octets each in MP_REACH_NLRI behind a
+    21-octet header, 11 octets each in MP_UNREACH_NLRI behind a 3-octet header) fill it: every (budget, payload) pair around the
+    switch is met, the one where a 256-octet value only just fits (or only just does not) included"""
+    out = []
+    for room in range(250, 271):
+        for ann, wd in (([[2, 1, 120, 6, 0, 1]], []), ([], [[2, 1, 60, 7]]), ([[2, 1, 400, 4, 0, 1]], [[2, 1, 60, 7]])):
+            case = hand_case(room, ann, wd)
+            case['attrs']['mode'] = 'mp-extended-length'
+            out.append(case)
+    return out
+
+
 def fixed_cases() -> list[dict]:
-    return minimal_findings() + boundary_sweep() + alignment_sweep()
+    return minimal_findings() + boundary_sweep() + alignment_sweep() + extended_length_sweep()
